@@ -20,6 +20,7 @@ package main
 import (
 	"encoding/hex"
 	"fmt"
+	"reflect"
 	"strings"
 
 	"github.com/miekg/dns"
@@ -56,6 +57,111 @@ func splitUnquoted(s string) (head, tail string, ok bool) {
 func packOf(rr dns.RR) (zg.Rec, bool) {
 	r := zg.RecOf(rr, make([]byte, 70000))
 	return r, r.Type != -1
+}
+
+// nameValues: the values of the fields of rr that the library's own struct tags declare to be domain names
+// (dns:"domain-name", "cdomain-name", the IPSECKEY / AMTRELAY gateway hosts), whatever the type.
+func nameValues(rr dns.RR) map[string]bool {
+	out := map[string]bool{}
+	v := reflect.ValueOf(rr)
+	for v.Kind() == reflect.Ptr || v.Kind() == reflect.Interface {
+		v = v.Elem()
+	}
+	if v.Kind() != reflect.Struct {
+		return out
+	}
+	for i := 0; i < v.NumField(); i++ {
+		if sf := v.Type().Field(i); sf.Anonymous && sf.Name != "Hdr" && v.Field(i).CanInterface() { // NXT{NSEC}, SIG{RRSIG}, ...
+			if inner, ok := v.Field(i).Addr().Interface().(dns.RR); ok {
+				for n := range nameValues(inner) {
+					out[n] = true
+				}
+			}
+			continue
+		}
+		tag := v.Type().Field(i).Tag.Get("dns")
+		if !(strings.Contains(tag, "domain-name") || strings.HasSuffix(tag, "host")) {
+			continue
+		}
+		switch f := v.Field(i); f.Kind() {
+		case reflect.String:
+			out[f.String()] = true
+		case reflect.Slice:
+			for k := 0; k < f.Len(); k++ {
+				if f.Index(k).Kind() == reflect.String {
+					out[f.Index(k).String()] = true
+				}
+			}
+		}
+	}
+	return out
+}
+
+// relNames: "relative names are completed with the current origin and @ is the origin" for EVERY name field of the
+// RDATA of every type, not only the first one.  For each zoo record and each RDATA item that is the value of a field
+// the library tags as a domain name, the zone
+//
+//	$ORIGIN <the name without its first label>          resp.   $ORIGIN <the name>
+//	o.example.org. 300 <class> <type> ... <first label> ...         ... @ ...
+//
+// denotes the same record as the absolute spelling (the reference: the record parsed alone).  Zone.tla judges the
+// line events; that the two spellings are equivalent is the rule of the statement, applied by construction.
+func relNames(refs []zooRef, w *hx.Writer, sum *hx.Summary) {
+	cfg := zg.Cfg{DefTTL: -1, Origin: zg.NameOpt{Set: true, N: []hx.B{}}, IncAllowed: false, File: hx.FromString("db"), Files: []zg.File{}}
+	classNum := map[string]int{"IN": 1, "CH": 3}
+	owner := zg.Ref{K: "abs", N: []hx.B{hx.FromString("o"), hx.FromString("example"), hx.FromString("org")}}
+	nfields := 0
+	for _, z := range refs {
+		rr, err := dns.NewRR("o.example.org. 300 " + z.class + " " + z.typ + " " + z.rdata)
+		if err != nil || rr == nil {
+			continue
+		}
+		names := nameValues(rr)
+		items := strings.Split(z.rdata, " ")
+		for i, it := range items {
+			if !names[it] || it == "." || strings.ContainsAny(it, "\"\\") {
+				continue
+			}
+			labels := dns.SplitDomainName(it)
+			if len(labels) == 0 {
+				continue
+			}
+			nfields++
+			parent := strings.TrimPrefix(it, labels[0]+".")
+			if parent == "" {
+				parent = "."
+			}
+			for _, v := range []struct{ how, origin, spelled string }{{"relative", parent, labels[0]}, {"at", it, "@"}} {
+				sum.Evaluations++
+				spelt := append([]string{}, items...)
+				spelt[i] = v.spelled
+				text := "$ORIGIN " + v.origin + "\n" + "o.example.org. 300 " + z.class + " " + z.typ + " " + strings.Join(spelt, " ") + "\n"
+				fam := fmt.Sprintf("relname|%s|%s|%d", v.how, z.typ, i+1)
+				cs := map[string]interface{}{"follow": fam, "text": text}
+				o, timedOut, _ := zg.RunBudget([]byte(text), zg.RunCfg{Origin: ".", DefTTL: -1, File: "db", NoMem: true}, budget)
+				if timedOut {
+					hang(sum, "relname:"+z.typ, "ZoneParser.Next", cs)
+				}
+				if o.Panic != "" {
+					sum.Mis("zone/panic", "panic: "+o.Panic, cs)
+					continue
+				}
+				var on []hx.B
+				for _, l := range dns.SplitDomainName(v.origin) {
+					on = append(on, hx.FromString(l))
+				}
+				recs := []zg.Rec5{}
+				for _, r := range o.Recs {
+					recs = append(recs, r.Five())
+				}
+				w.Emit(evStart{"start", cfg, text})
+				w.Emit(evLine{"line", 1, zg.Line{K: "origin", Name: zg.Ref{K: "abs", N: on}}, []zg.Rec5{}, false, fam})
+				w.Emit(evLine{"line", 2, zg.Line{K: "rr", Owner: owner, TTL: 300, Class: classNum[z.class], Order: "tc", Type: z.rec.Type,
+					RD: zg.RD{IP: z.rec.Rdata, Pref: -1, Nm: zg.Ref{K: "omit", N: []hx.B{}}, Txt: []hx.B{}}}, recs, o.Err != nil, fam})
+			}
+		}
+	}
+	sum.Note("rdata_name_fields", nfields)
 }
 
 func follow(out string) {
@@ -221,8 +327,9 @@ func follow(out string) {
 			}
 		}
 	}
-	sum.Nontrivial = len(types)
 	sum.Note("follow_zones", sum.Evaluations)
+	relNames(refs, w, &sum)
+	sum.Nontrivial = len(types)
 	sum.Note("record_types", len(types))
 	sum.Note("events", w.N)
 	sum.Print()
